@@ -3,7 +3,7 @@
 From Coq Require Import Ascii String List Bool Arith ZArith NArith Lia.
 From PTBase Require Import Exn PyStr PyNum PyVal Fmt FixedFormat.
 From Gen Require Import GenTables GenSections.
-From P Require Import Comb Obj Fields Idem Sections SectionsB Rec Prog SecRocks SecMesh SecGener SecMisc SecParam SecHist SecSel SecShort SecMeshm IdemSec T2DataIO.
+From P Require Import Comb Obj Fields Idem Sections SectionsB Rec Prog SecRocks SecMesh SecGener SecMisc SecParam SecHist SecSel SecShort SecMeshm IdemSec T2DataIO IdemMeshm.
 Import ListNotations.
 Open Scope string_scope.
 
@@ -87,40 +87,37 @@ Proof.
   cbn [map citem]. rewrite (layer_vals_d _ _ _ L). reflexivity.
 Qed.
 
-(** ** MULTI *)
-Definition prog_multi (d : t2d) : list item :=
-  match multi d with [] => [] | m => [Lit (kw "MULTI"); Rec (multi_spec d) (dict_vals m (nm (multi_spec d)))] end.
-Lemma write_multi_prog d : write_multi T d = render (prog_multi d).
+(** ** MULTI: the reader strips the name of the equation of state, the writer pads it again; the program
+    holds the name as it is read back, and the agreement of the two programs is computed ([idem_multi]) *)
+Fixpoint norm_eos (specs : list fspec) (ns : list string) (vals : list value) : list value :=
+  match specs, ns, vals with
+  | f :: fs, n :: r, v :: vs => (if (n =? "eos")%string then cf f v else v) :: norm_eos fs r vs
+  | _, _, _ => vals
+  end.
+Definition multi_items (spec : string) (m : dict) : list item :=
+  match m with [] => [] | _ => [Lit (kw "MULTI"); Rec spec (norm_eos (sp spec) (nm spec) (dict_vals m (nm spec)))] end.
+Definition prog_multi (d : t2d) : list item := multi_items (multi_spec d) (multi d).
+Definition wfw_multi_of (spec : string) (m : dict) : bool :=
+  fmt_sameb (sp spec) (norm_eos (sp spec) (nm spec) (dict_vals m (nm spec))) (dict_vals m (nm spec)).
+Definition wfw_multi (d : t2d) : bool := wfw_multi_of (multi_spec d) (multi d).
+Lemma write_multi_prog d : wfw_multi d = true -> write_multi T d = render (prog_multi d).
 Proof.
-  unfold write_multi, prog_multi. destruct (multi d) as [|e es]; [reflexivity|].
-  unfold Prog.render. cbn [mapM render1 bind]. destruct (wline T (multi_spec d) _); reflexivity.
+  unfold wfw_multi, wfw_multi_of, write_multi, prog_multi, multi_items. intro H. destruct (multi d) as [|e es] eqn:E; [reflexivity|]. rewrite <- E in *.
+  unfold Prog.render. cbn [mapM render1 bind]. unfold wline, write_values. fold (sp (multi_spec d)).
+  rewrite (fmt_same_write _ _ _ (fmt_sameb_spec _ _ _ H)). destruct (write_fields _ _); reflexivity.
 Qed.
-(** the name of the equation of state, when there is one, fills its column (the reader strips it) *)
-Definition eos_plain (m : dict) : bool :=
-  match dget m "eos" with Some (XStr s) => str_eqb (strip s) s | Some _ => false | None => true end.
 Definition idem_multi (dk d : t2d) : bool :=
-  let m := canon_dict T (multi_spec d) (multi dk) (multi d) in
-  layer_okd (multi dk) (nm (multi_spec d)) (cvals (sp (multi_spec d)) (dict_vals (multi d) (nm (multi_spec d)))) &&
-  eos_plain m && nonempty m && nonempty (multi d).
-Lemma dset_nonempty m k v : nonempty (dset m k v) = true.
-Proof. destruct m as [|[k' v'] r]; [reflexivity|]. cbn [dset]. destruct (k =? k')%string; reflexivity. Qed.
+  match strip_eos (canon_dict T (multi_spec d) (multi dk) (multi d)) with
+  | Ok m => wfw_multi_of (multi_spec d) m && items_eqb (multi_items (multi_spec d) m) (map citem (prog_multi d))
+  | Raise _ => false
+  end.
 Lemma prog_multi_canon dk d X m : idem_multi dk d = true ->
   strip_eos (canon_dict T (multi_spec d) (multi dk) (multi d)) = Ok m -> multi X = m -> autough2 X = autough2 d ->
-  prog_multi X = map citem (prog_multi d).
+  prog_multi X = map citem (prog_multi d) /\ wfw_multi X = true.
 Proof.
-  intros ID SE MX AX. unfold idem_multi in ID. cbv zeta in ID.
-  apply andb_prop in ID as [ID N2]. apply andb_prop in ID as [ID N1]. apply andb_prop in ID as [L EP].
+  intros ID SE MX AX. unfold idem_multi in ID. rewrite SE in ID. apply andb_prop in ID as [W P]. apply items_eqb_eq in P.
   assert (SX : multi_spec X = multi_spec d) by (unfold multi_spec; rewrite AX; reflexivity).
-  set (m0 := canon_dict T (multi_spec d) (multi dk) (multi d)) in *.
-  assert (DV : dict_vals m (nm (multi_spec d)) = dict_vals m0 (nm (multi_spec d)) /\ nonempty m = true).
-  { unfold strip_eos, eos_plain in *. destruct (dget m0 "eos") as [[s| | |]|] eqn:G; try discriminate; inv_ok SE.
-    - apply str_eqb_eq in EP. rewrite EP. split; [|apply dset_nonempty]. apply dict_vals_ext. intros n _. unfold dgetv.
-      destruct (string_dec n "eos") as [E|NE]; [subst n; rewrite dget_dset_same, G; reflexivity|rewrite dget_dset_other by exact NE; reflexivity].
-    - split; [reflexivity|exact N1]. }
-  destruct DV as [DV NM]. unfold prog_multi. rewrite MX, SX.
-  destruct (multi d) as [|e es] eqn:ED; [discriminate|]. rewrite <- ED in *.
-  destruct m as [|c cs] eqn:EM; [discriminate|]. rewrite <- EM in *.
-  cbn [map citem]. rewrite DV. unfold m0, canon_dict. rewrite <- ?ED. rewrite (layer_vals_d _ _ _ L). reflexivity.
+  unfold prog_multi, wfw_multi. rewrite SX, MX. split; [exact P|exact W].
 Qed.
 
 (** ** TIMES *)
